@@ -180,14 +180,25 @@ def differential_standin(root, tier, seed):
     samples = []
     try:
         pool = [2, 3, 4, 5, 6, 7, 8, 9, 10, 11, 12, 13, 14, 15, 19, 21, 22, 24, 26, 27, 28, 29, 30, 137, 16, 1, 0]
-        for i in range(n):
-            ln = rng.randint(1, 9)
-            prog = []
-            for _ in range(ln):
-                prog.append(rng.choice(pool))
-                if rng.random() < 0.7:
-                    prog.append(rng.choice([0, 0, 1, 1, 2, 3]))
-            ph = rng.choice(list(sm.PHASES))
+        # several instructions of the same kind in one run (what one leaves behind must not reach the next): two / three Instantiate with different plugs,
+        # two ESubst / SSubst, repeated Save / Load
+        O = sm.OPC
+        crafted = [[O['Symbol'], 0, O['Prop1'], O['Instantiate'], 1, 0, O['Symbol'], 1, O['Prop1'], O['Instantiate'], 1, 0],
+                   [O['EVar'], 1, O['EVar'], 2, O['Prop2'], O['Instantiate'], 2, 0, 1, O['Symbol'], 3, O['Prop1'], O['Instantiate'], 1, 1, O['Symbol'], 4, O['Prop3'], O['Instantiate'], 1, 0],
+                   [O['Symbol'], 0, O['Symbol'], 1, O['Prop1'], O['Instantiate'], 2, 1, 0, O['Symbol'], 2, O['Prop1'], O['Instantiate'], 1, 1],
+                   [O['MetaVar'], 0, 0, 0, 0, 0, 0, O['EVar'], 1, O['ESubst'], 0, O['MetaVar'], 1, 0, 0, 0, 0, 0, O['EVar'], 2, O['ESubst'], 1],
+                   [O['Symbol'], 0, O['Save'], O['Symbol'], 1, O['Save'], O['Load'], 0, O['Load'], 1, O['Load'], 0]]
+        for i in range(n + len(crafted)):
+            if i < len(crafted):
+                prog = crafted[i]
+            else:
+                ln = rng.randint(1, 9)
+                prog = []
+                for _ in range(ln):
+                    prog.append(rng.choice(pool))
+                    if rng.random() < 0.7:
+                        prog.append(rng.choice([0, 0, 1, 1, 2, 3]))
+            ph = rng.choice(list(sm.PHASES)) if i >= len(crafted) else 'Proof'
             agree, rec = smreplay.differential(rr, ph, prog, [], [], [])
             done += 1
             if len(samples) < 3:
